@@ -20,16 +20,41 @@ FILES = ["corankco/algorithms/bioconsert/bioconsert.py"]
 THRESHOLD = 0.001
 
 
+NEG_INDEX = {"events": 0}
+
+
 def setup(ctx):
     if "C" in ctx.mode:
         from vf import cover
         cover.start(ctx.spec["repo"], FILES)
+        # interpreted kernels: the work arrays of the local search become strict arrays that count negative indices
+        # (numba and numpy silently wrap them around); advisory -- a wrapped index is not an API-level violation
+        import numpy as np
+        import corankco.algorithms.bioconsert.bioconsert as bc
+
+        class StrictArray(np.ndarray):
+            def __getitem__(self, idx):
+                if isinstance(idx, (int, np.integer)) and idx < 0:
+                    NEG_INDEX["events"] += 1
+                return super().__getitem__(idx)
+
+            def __setitem__(self, idx, value):
+                if isinstance(idx, (int, np.integer)) and idx < 0:
+                    NEG_INDEX["events"] += 1
+                super().__setitem__(idx, value)
+
+        real_zeros = bc.zeros
+
+        def strict_zeros(*a, **k):
+            return real_zeros(*a, **k).view(StrictArray)
+        bc.zeros = strict_zeros
 
 
 def finish(ctx):
     if "C" in ctx.mode:
         from vf import cover
         cover.flush(ctx)
+        ctx.count("negative_index_events_in_interpreted_kernels", NEG_INDEX["events"])
 
 
 def plan(tier, seed):
@@ -117,6 +142,9 @@ def reach(counters, tier, info):
     for cfg in CONFIGS:
         v = counters.get("runs:" + cfg, 0)
         out.append({"name": f"runs of {cfg}", "observed": v, "required": 50 * k, "ok": v >= 50 * k})
+    v = counters.get("negative_index_events_in_interpreted_kernels", 0)
+    out.append({"name": "negative (wrap-around) indices used on the kernels' work arrays in interpreted mode (advisory)",
+                "observed": v, "required": 0, "ok": v == 0, "gating": False})
     out += anchors.reach(info, [(FILES[0], 42, 66, "_search_to_change_bucket"), (FILES[0], 82, 86, "_change_bucket"),
                                 (FILES[0], 101, 123, "_search_to_add_bucket"), (FILES[0], 139, 160, "_add_bucket"),
                                 (FILES[0], 165, 196, "_compute_delta_costs"), (FILES[0], 201, 235, "_improve_one_ranking")],
